@@ -75,7 +75,8 @@ def _digest_inprocess(text, path):
     raise NotImplementedError
 
 
-def run_variants(ctx, texts, key='environment-dependent', with_files=True, variants=None, timeout=900, fragments=None):
+def run_variants(ctx, texts, key='environment-dependent', with_files=True, variants=None, timeout=900, fragments=None,
+                 load_equals_loads_key=None):
     """texts: list of str.  Spawns one reference child (the parent's own environment) and one child per variant; every variant must
     reproduce the reference digest of every text (imports from a string and, with_files, from a UTF-8 file)."""
     SCRATCH_DIR.mkdir(exist_ok=True)
@@ -122,6 +123,18 @@ def run_variants(ctx, texts, key='environment-dependent', with_files=True, varia
             ctx.inconc(f'environment reference child failed: {err}')
             return
         ctx.mon('environment_reference_digests', len(ref['results']))
+        if load_equals_loads_key and with_files:
+            # in the reference child every text was imported from the string FIRST and from its file afterwards, in a process that had
+            # imported nothing before: the two digests are the same
+            for i, r_ in enumerate(ref['results']):
+                ctx.ev()
+                ctx.mon('fresh_process_load_vs_loads')
+                if r_.get('loads') != r_.get('load'):
+                    a_, b_ = r_.get('loads'), r_.get('load')
+                    what = (f'loads: {str(a_)[:90]} / load: {str(b_)[:90]}' if not (isinstance(a_, dict) and isinstance(b_, dict))
+                            else 'differ in ' + str([k for k in a_ if a_.get(k) != b_.get(k)][:5]))
+                    ctx.violation(load_equals_loads_key, f'in a fresh process, text #{i} ({len(texts[i])} characters) imported from the string and '
+                                  f'then from its file: {what}', {'text_head': texts[i][:300], 'length': len(texts[i])})
         for name, flags, envd, cwd in (variants or VARIANTS):
             got, err = spawn(name, flags, envd, cwd)
             ctx.ev()
